@@ -19,12 +19,18 @@ PREAD_RX = r"FileExt>?::(read_exact_at|read_at)$"
 
 
 def assigns_field(g, n, name):
+    """assignments performed by block n whose target is a field called `name` - written as `x.name = v` or through a `&mut` to it
+    (`*p = v` in a helper that received `&mut x.name`)"""
     out = []
     for si, s in enumerate(g.stmts(n)):
         if s["k"] == "assign" and s["p"]["proj"]:
             fl = [el for el in s["p"]["proj"] if isinstance(el, dict) and "f" in el]
             if fl and fl[-1].get("n") == name:
                 out.append((si, s))
+            elif not fl and s["p"]["proj"] == ["deref"]:
+                pe = strip_ids(g.prov_place(g.inst(n), s["p"]))
+                if is_field(pe, name):
+                    out.append((si, s))
     return out
 
 
